@@ -132,6 +132,10 @@ def _work(arg):
 
 
 def run(prop_id, tier, seed, replay=None):
+    replay_doc = None
+    if replay:                      # read it first: it may live in the work dir that is recreated below
+        with open(replay) as f:
+            replay_doc = json.load(f)
     rep = vlib.Report(prop_id, tier, seed)
     wd = vlib.workdir(prop_id)
     rep.rule = ("cases = JaxIR programs built by TLC (Stateful.tla over the program source of Incremental.tla: exhaustive "
@@ -139,8 +143,7 @@ def run(prop_id, tier, seed, replay=None):
                 "on all 3^k valuations and eagerly on a seeded subset; evaluations = interpreter calls compared with TLC's EvalProg; "
                 "non-trivial = distinct program containing a structured / initial-style primitive, a literal or a closed-over constant operand")
     if replay:
-        with open(replay) as f:
-            cases = [json.load(f)["detail"]["case"]]
+        cases = [replay_doc["detail"]["case"]]
     else:
         rand = dict(nchains=48, nper=1, arith=8) if tier == "quick" else dict(nchains=96, nper=6, arith=16)
         cases = generate("Stateful", wd, seed, tier, rep, ["Transparent", "EmitCase36"], rand=rand)
